@@ -176,7 +176,7 @@ func c11Case(c *mc.Ctx, p *ref.Pkt, what string, public bool) {
 	}
 	// encode from the model
 	lp := fromRefPkt(p)
-	out, n, err := astits.VerifWritePacket(lp)
+	out, n, err := c11Write(c, lp)
 	if err != nil || n != 188 || !bytes.Equal(out, want) {
 		c.Rep.Report("encode-differs:"+fieldOf(what), det(fmt.Sprintf("writePacket(model): n=%d err=%v\n got  %x\n want %x", n, err, out, want)))
 	}
@@ -185,7 +185,7 @@ func c11Case(c *mc.Ctx, p *ref.Pkt, what string, public bool) {
 	if p.HasAF && p.AF != nil && !p.AF.Zero {
 		stale := fromRefPkt(p)
 		stale.AdaptationField.Length = (stale.AdaptationField.Length + 5) % 184
-		if o, n, err := astits.VerifWritePacket(stale); err != nil || n != 188 || !bytes.Equal(o, want) {
+		if o, n, err := c11Write(c, stale); err != nil || n != 188 || !bytes.Equal(o, want) {
 			c.Rep.Report("encode-differs:stale-length-field", det(fmt.Sprintf("writePacket with a stale AdaptationField.Length: n=%d err=%v\n got  %x\n want %x", n, err, o, want)))
 		}
 		q := *p
@@ -221,7 +221,7 @@ func c11Case(c *mc.Ctx, p *ref.Pkt, what string, public bool) {
 			af.Stuffing += removed
 			a.StuffingLength += removed
 			w2 := q.Encode()
-			if o, n, err := astits.VerifWritePacket(lq); err != nil || n != 188 || !bytes.Equal(o, w2) {
+			if o, n, err := c11Write(c, lq); err != nil || n != 188 || !bytes.Equal(o, w2) {
 				c.Rep.Report("encode-differs:leftover-behind-cleared-flag", det(fmt.Sprintf("a part whose flag is cleared (value left in the struct) changes the written packet: n=%d err=%v\n got  %x\n want %x", n, err, o, w2)))
 			}
 			c.Ev.Class("leftover-behind-cleared-flag", 1)
@@ -238,13 +238,13 @@ func c11Case(c *mc.Ctx, p *ref.Pkt, what string, public bool) {
 		}
 		ls := fromRefPkt(p)
 		ls.AdaptationField.StuffingLength = 0
-		if o, n, err := astits.VerifWritePacket(ls); err != nil || n != 188 || !bytes.Equal(o, short) {
+		if o, n, err := c11Write(c, ls); err != nil || n != 188 || !bytes.Equal(o, short) {
 			c.Rep.Report("encode-differs:short-packet-padding", det(fmt.Sprintf("writePacket of a packet shorter than 188 bytes (stuffing left out): n=%d err=%v\n got  %x\n want %x", n, err, o, short)))
 		}
 		c.Ev.Class("short-packet-padded", 1)
 	}
 	// re-emit what was parsed
-	out2, n2, err2 := astits.VerifWritePacket(got)
+	out2, n2, err2 := c11Write(c, got)
 	if err2 != nil || n2 != 188 || !bytes.Equal(out2, want) {
 		sig := "reemit-differs:" + fieldOf(what)
 		if p.AF != nil && p.AF.Zero {
@@ -455,4 +455,35 @@ func checkC11(c *mc.Ctx) {
 	c.Ev.AddScenario(mc.Scenario{Name: "re-emit whole streams", SpaceSize: nre, Executed: nre, Exhaustive: true, Bound: "every packet of 4 multi-PID streams (all adaptation-field kinds), re-emitted after all packets were read"})
 	c.Ev.Sample(map[string]any{"what": jobs[len(jobs)/2].what, "bytes": mc.Hex(jobs[len(jobs)/2].p.Encode()[:24])})
 	c.Ev.Require("af-length-0", "afc-10", "stream-reemitted", "short-packet-padded")
+}
+
+// c11Write encodes a packet whose payload (and private data) are handed over the way a zero-copy caller does - as
+// windows of larger buffers with other data right behind them: writing a packet reads the caller's memory, it
+// never writes to it.
+func c11Write(c *mc.Ctx, lp *astits.Packet) ([]byte, int, error) {
+	if lp == nil {
+		return astits.VerifWritePacket(lp)
+	}
+	checks := []func() bool{}
+	if lp.Payload != nil {
+		orig := lp.Payload
+		in, intact := callerSlice(orig)
+		lp.Payload = in
+		defer func() { lp.Payload = orig }()
+		checks = append(checks, intact)
+	}
+	if af := lp.AdaptationField; af != nil && af.TransportPrivateData != nil {
+		orig := af.TransportPrivateData
+		in, intact := callerSlice(orig)
+		af.TransportPrivateData = in
+		defer func() { af.TransportPrivateData = orig }()
+		checks = append(checks, intact)
+	}
+	o, n, err := astits.VerifWritePacket(lp)
+	for _, ok := range checks {
+		if !ok() {
+			c.Rep.Report("encode-writes-into-caller-memory", map[string]any{"kind": "packet", "what": "writePacket", "bytes": mc.Hex(o), "message": "writePacket changed the caller's payload / private data buffer (the bytes handed over or the memory behind them: len < cap)"})
+		}
+	}
+	return o, n, err
 }
